@@ -62,6 +62,10 @@ func main() {
 				emit(w, runNeutralPairs(c, sub))
 			}
 		}
+	case "conc":
+		for _, l := range runConc(*seed, *n) {
+			fmt.Fprintln(w, l)
+		}
 	case "edit":
 		rng := rand.New(rand.NewSource(*seed))
 		for i := 0; i < *n; i++ {
